@@ -397,6 +397,11 @@ func c20Step(x *engine.Exec) []engine.Failure {
 	case world.KSlash:
 		ref.onSlash(x.Op.V, world.Rat(x.Res.EffFrac), prev.Time)
 		x.Cnt.Inc("state.after_slash")
+	case world.KReimport:
+		if x.Res.Err != nil {
+			return []engine.Failure{fail("reimport", "", "export/import failed: %v", x.Res.Err)}
+		}
+		x.Cnt.Inc("state.after_genesis_reimport")
 	}
 	nBucket := map[string]int{}
 	for _, u := range ref.Unb {
@@ -438,6 +443,11 @@ func init() {
 				for _, dt := range dts(1, 3) {
 					ops = append(ops, world.Op{K: world.KBlock, Dt: int64(dt), Class: ClsBlock})
 				}
+				// the chain may be restarted from a genesis export at any time: the queries must be exact views afterwards too
+				// (their indexes are rebuilt by InitGenesis)
+				if len(n.Snap().Unb)+len(n.Snap().Redels) > 0 {
+					ops = append(ops, world.Op{K: world.KReimport, Class: ClsEnv})
+				}
 				return ops
 			}
 			mk := func(name string, budgets []int, depth int) *engine.Scenario {
@@ -446,13 +456,13 @@ func init() {
 					Seeds: [][]world.Op{c07Seed}, ClassNames: classNames, Budgets: budgets, MaxDepth: depth,
 					NewRef: func(w *world.World, root *engine.Node) engine.Ref { return newPendRef() },
 					Ops:    ops, Step: c20Step, SeedStep: true,
-					Required: []string{"query.unbondings.nonempty", "query.redelegations.followed_next_key", "state.bucket_with_2plus_entries", "state.after_slash", "probe.undelegate_balance", "query.binding.alliance", "query.binding.delegation"},
+					Required: []string{"query.unbondings.nonempty", "query.redelegations.followed_next_key", "state.bucket_with_2plus_entries", "state.after_slash", "probe.undelegate_balance", "query.binding.alliance", "query.binding.delegation", "state.after_genesis_reimport"},
 				}
 			}
 			if tier == "thorough" {
-				return []*engine.Scenario{mk("c20-queries", []int{4, 1, 0, 2, 0}, 7)}
+				return []*engine.Scenario{mk("c20-queries", []int{4, 1, 1, 2, 0}, 7)}
 			}
-			return []*engine.Scenario{mk("c20-queries", []int{3, 1, 0, 2, 0}, 4)}
+			return []*engine.Scenario{mk("c20-queries", []int{3, 1, 1, 2, 0}, 4)}
 		},
 		Assumptions: []string{
 			"reference enumeration: the list-based model of pending unbondings/redelegations (the one C02/C07/C15 validate against the store) and a raw decode of the delegation records",
